@@ -432,6 +432,42 @@ pub(crate) fn build_app_with_workspace_root_and_provider_and_task_policy(
         .with_state(state)
 }
 
+/// Verification export: the same router as `build_app_*`, plus a handle on its engine.
+#[cfg(feature = "verif")]
+pub fn verif_build_app(
+    data_dir: std::path::PathBuf,
+    workspace_root: std::path::PathBuf,
+    openresponses: Option<OpenResponsesConfig>,
+    allow_pty_tasks: bool,
+) -> Result<(Router, Arc<SessionEngine>), String> {
+    let (router, openapi_json) = build_openapi_router();
+    let engine = Arc::new(SessionEngine::new(data_dir, workspace_root, openresponses)?);
+    let state = AppState {
+        sessions: Arc::new(Mutex::new(HashMap::new())),
+        tasks: Arc::new(Mutex::new(HashMap::new())),
+        engine: engine.clone(),
+        openapi_json: Arc::new(openapi_json),
+        allow_pty_tasks,
+    };
+    let router = router
+        .route("/openapi.json", get(openapi_spec))
+        .with_state(state);
+    Ok((router, engine))
+}
+
+/// Verification export: the authority start-up recovery loop used by `serve`.
+#[cfg(all(feature = "verif", not(test)))]
+pub async fn verif_acquire_authority_lock_with_recovery(
+    data_dir: &std::path::Path,
+    workspace_root: &std::path::Path,
+) -> Result<AuthorityLockGuard, String> {
+    let client = Client::builder()
+        .timeout(std::time::Duration::from_millis(250))
+        .build()
+        .map_err(|err| err.to_string())?;
+    acquire_authority_lock_with_recovery(&client, data_dir, workspace_root).await
+}
+
 pub(crate) fn build_openapi_router() -> (Router<AppState>, String) {
     let (router, api) = OpenApiRouter::with_openapi(ApiDoc::openapi())
         .routes(routes!(config_doctor))
@@ -544,7 +580,11 @@ async fn stream_events(
     };
 
     let receiver = handle.subscribe();
+    #[cfg(feature = "verif")]
+    rip_kernel::verif::point("server.stream.subscribed", &session_id);
     let past = handle.events_snapshot().await;
+    #[cfg(feature = "verif")]
+    rip_kernel::verif::point("server.stream.snapshotted", &session_id);
 
     let last_seq = past.last().map(|event| event.seq);
     let past_stream = tokio_stream::iter(past).filter_map(|event| async move {
@@ -1262,6 +1302,8 @@ async fn thread_stream_events(
 ) -> impl IntoResponse {
     let store = state.engine.continuities();
     let receiver = store.subscribe();
+    #[cfg(feature = "verif")]
+    rip_kernel::verif::point("server.stream.subscribed", &thread_id);
 
     let past = match store.replay_events(&thread_id) {
         Ok(events) => events,
@@ -1270,6 +1312,8 @@ async fn thread_stream_events(
         }
         Err(_) => return StatusCode::INTERNAL_SERVER_ERROR.into_response(),
     };
+    #[cfg(feature = "verif")]
+    rip_kernel::verif::point("server.stream.snapshotted", &thread_id);
     // If there are no frames in the stream, treat the thread id as unknown.
     // (The truth of thread existence is its continuity event stream.)
     if past.is_empty() {
@@ -1451,7 +1495,11 @@ async fn stream_task_events(
     };
 
     let receiver = handle.subscribe();
+    #[cfg(feature = "verif")]
+    rip_kernel::verif::point("server.stream.subscribed", &task_id);
     let past = handle.events_snapshot().await;
+    #[cfg(feature = "verif")]
+    rip_kernel::verif::point("server.stream.snapshotted", &task_id);
 
     let last_seq = past.last().map(|event| event.seq);
     let past_stream = tokio_stream::iter(past).filter_map(|event| async move {
